@@ -368,7 +368,7 @@ impl MerkleTree {
         };
         let mut untrusted_sub_tree = false;
         if let Some(indexed) = indexed.as_ref() {
-            if seek.is_some() && upgrade.is_some() && indexed.index >= from {
+            if seek.is_some() && upgrade.is_some() && indexed.last_index * 2 >= from {
                 return Err(HypercoreError::InvalidOperation {
                     context: "Cannot both do a seek and block/hash request when upgrading"
                         .to_string(),
